@@ -221,7 +221,7 @@ def read_line(path, lineno):
     return None
 
 
-def tlc_mc(module, cfg=None, workers=8, timeout=3000, xmx="8g", coverage=True, extra_env=None, deadlock=False, extra_args=None):
+def tlc_mc(module, cfg=None, workers=8, timeout=3000, xmx="8g", coverage=True, extra_env=None, deadlock=False, extra_args=None, expect_violation=False):
     """Exhaustive model-checking run of a design-level config.  Returns dict(ok, generated, distinct, depth,
     actions={name: count}, out=stdout tail).  A property violation in the *specification* is a tool error for the
     checks (the documented machine must satisfy its own invariants)."""
@@ -258,6 +258,11 @@ def tlc_mc(module, cfg=None, workers=8, timeout=3000, xmx="8g", coverage=True, e
     res = dict(ok=ok, generated=gen, distinct=dist, depth=int(md.group(1)) if md else 0, actions=actions,
                wall_s=round(time.time() - t, 1), tail="\n".join(out.splitlines()[-30:]))
     log("[mc] %s/%s: ok=%s generated=%d distinct=%d in %.1fs" % (module, cfg or "", ok, gen, dist, time.time() - t))
+    res["violated"] = re.findall(r"(?:Invariant|property) (\w+) is violated", out) + (["Temporal"] if "Temporal properties were violated" in out else [])
+    if expect_violation:
+        if ok or not res["violated"]:
+            raise ToolError("negative control %s (%s) was expected to violate a property but did not:\n%s" % (module, cfg, res["tail"]))
+        return res
     if not ok:
         raise ToolError("design-level model checking of %s (%s) did not complete cleanly:\n%s" % (module, cfg, res["tail"]))
     return res
